@@ -142,7 +142,9 @@ class World:
             return i
         i = copy.deepcopy(i)
         for k, v in i.get("params", {}).items():
-            if isinstance(v, dict) and v.get("$") in ("haar", "lossy", "stochastic", "gram", "detcov"):
+            kinds = ("haar", "lossy", "stochastic", "gram", "detcov", "adj") if order != "single" else ("haar", "lossy", "stochastic", "adj")
+            # (a detection covariance saturating the uncertainty bound, or a Gram matrix, does not survive rounding to single precision)
+            if isinstance(v, dict) and v.get("$") in kinds:
                 i["params"][k] = {"$": "nd", "data": {"$$": v}, "order": order}
         return i
 
